@@ -28,6 +28,9 @@ CHECKS.update({
  "C10": ("7/C10", "model-based testing against an independent lexical-scoping resolver over a scoping grammar; history machine over several live documents", "Every identifier-valued binding of generated scoping programs is resolved and compared with the reference resolver (right binding, or explicit ResolutionError; unbound/cyclic names must raise); a history part creates, resolves, moves nodes between and drops documents with gc in between.", TB + SCOPE),
  "C11": ("7/C11", "model-based testing: expected document = input with the resolver-designated binding replaced; token-sequence equality", "For every reference-valued binding, set (CLI helper and API, fresh parse and one-object histories with rebinding steps) must change exactly the binding the reference resolver designates; the expected text is re-rendered from the model and compared token by token.", TB + SCOPE),
 })
+CHECKS.update({
+ "C14": ("7/C14", "Hypothesis RuleBasedStateMachine over document / nested-set / scope mappings with a nested-dict model; text read back as data", "A rule-based state machine performs get/set/delete (existing, absent, into non-mappings, rebinding the name an identifier-bodied document goes through) on the three mapping kinds; after every rule the dictionary law of the rule and the equality of the rebuilt text (read back as nested data by the independent reader) with the model are checked.", TB),
+})
 for pid, mod in [("C01", "round trip: token-sequence equality after rebuild"), ("C03", "round trip: comment multiset/order/barrier-position oracle"), ("C06", "round trip: second-pass fixed point + CLI test"), ("C18", "round trip: lexical spacing normal-form scan")]:
     pass
 
